@@ -10,7 +10,7 @@ namespace GitBugModel.Dag
 
 inductive Err where
   | notFound | missingCommit | multipleRoots | decode | invalidPack | mergeWithOps
-  | noCreateTime | clockOrder | clockJump | fuel
+  | noCreateTime | clockOrder | clockJump | fuel | noOps
 deriving DecidableEq, Repr, Inhabited
 
 /-- An operation as the DAG layer sees it. -/
@@ -134,6 +134,14 @@ deriving Repr
 
 def maxOf (l : List Nat) : Nat := l.foldl max 0
 
+/-- the entity made of the packs collected: an entity is identified by its first operation, a
+history without any operation is refused -/
+def mkEntity (packs : List Pack) (head : String) : Except Err Entity :=
+  if (opsOf packs).isEmpty then .error .noOps
+  else .ok { ops := opsOf packs, lastCommit := head,
+             createTime := maxOf (packs.map (·.create)), editTime := maxOf (packs.map (·.edit)),
+             packs := packs }
+
 /-- `read` at a given head commit. -/
 def read (s : Store) (head : String) : Except Err Entity :=
   match bfs s (s.length + 1) [head] [head] [] with
@@ -144,11 +152,7 @@ def read (s : Store) (head : String) : Except Err Entity :=
     | .ok m =>
       match pass2 m order with
       | .error e => .error e
-      | .ok () =>
-        let packs := m.map (·.2)
-        .ok { ops := opsOf packs, lastCommit := head,
-              createTime := maxOf (packs.map (·.create)), editTime := maxOf (packs.map (·.edit)),
-              packs := packs }
+      | .ok () => mkEntity (m.map (·.2)) head
 
 /-- `Entity.Validate` + `Bug.Validate` as far as the DAG layer can tell. -/
 def entityValid (ops : List OpTok) : Bool :=
